@@ -1,4 +1,4 @@
-import AlgoVerif.Lemmas.PlayerAttestComm
+import AlgoVerif.Lemmas.PlayerAttestFrame
 import AlgoVerif.Model.AgreementSvc
 /-!
 What one `Model.Player.handle` does to the player's (Round, Period, Step, Napping) and which `attest` actions it emits
@@ -334,6 +334,230 @@ theorem issueFastVote_a (hs : GSpec P good G) (hset : ∀ r p vw, G r p vw → v
         have e0 := (fastFinish_pl σ₆ (acts₁ ++ [Action.broadcastVotes (e1 ++ (e2 ++ e3))]) sRedo ns.proposal).1
         rw [h] at e0
         exact ⟨e0 ▸ q6, e0 ▸ g6, this⟩
+
+/-! ### the values of soft / next / down votes (pure unfolding: what was read from the tree when the vote was cast) -/
+
+/-- a frame that says nothing: used to get `σ'.pl = σ.pl` out of the generic pass -/
+theorem trivFrame : Frame P (fun _ => True) (fun _ => True) (fun _ _ => True) where
+  congr := fun _ _ _ _ _ => trivial
+  upd := fun _ _ _ _ _ => trivial
+  atRound := fun _ _ _ _ _ _ _ _ _ _ _ => trivial
+  rupd := fun _ _ _ _ _ _ => trivial
+  atPeriod := fun _ _ _ _ _ _ _ _ _ _ _ _ => trivial
+  pvote := fun _ _ _ _ _ _ _ _ _ => trivial
+  payP := fun _ _ _ _ _ _ => trivial
+  payV := fun _ _ _ _ _ _ _ _ _ => trivial
+  fresh := fun _ _ _ _ _ => trivial
+
+/-- the next-threshold cache the tree holds for (r, q) -/
+def CacheAt (root : Root) (r q : Nat) (ns : NextStatus) : Prop := ∃ vw, viewAt root r q = some vw ∧ vw.cached = ns
+
+theorem nextStatus_out {σ σ' : State} {ns : NextStatus} (h : nextStatus P σ = .ok (σ', ns)) :
+    CacheAt σ'.root σ.pl.round (predPeriod σ.pl.period) ns ∧ σ'.pl = σ.pl := by
+  unfold nextStatus at h
+  simp only [] at h
+  split at h
+  · cases h
+  rename_i root a hx
+  simp only [Except.ok.injEq, Prod.mk.injEq] at h
+  obtain ⟨rfl, rfl⟩ := h
+  obtain ⟨_, rr', _, hf, hrr'⟩ := atRound_out hx
+  obtain ⟨pr₀, pr', _, hfp, hper, _⟩ := atPeriod_out hf
+  simp only [Except.ok.injEq, Prod.mk.injEq] at hfp
+  obtain ⟨rfl, rfl⟩ := hfp
+  refine ⟨⟨_, viewAt_of_RAt (rr := rr') (pr := pr₀.upd 0) ⟨hrr', by rw [hper]; exact aget_aset_self _ _ _⟩, rfl⟩, rfl⟩
+
+theorem partitionPolicy_noatt {σ σ' : State} {acts : List Action} (h : partitionPolicy P σ = .ok (σ', acts)) :
+    atts acts = [] ∧ σ'.pl = σ.pl := by
+  refine ⟨?_, (f_partitionPolicy trivFrame trivial trivial h).2⟩
+  unfold partitionPolicy at h
+  split at h
+  · simp only [Except.ok.injEq, Prod.mk.injEq] at h; obtain ⟨_, rfl⟩ := h; rfl
+  split at h
+  · cases h
+  rename_i σ₁ ok fr hf
+  simp only [] at h
+  have ha0 : atts (if ok = true then [Action.broadcastBundle fr.cert] else []) = [] := by split <;> rfl
+  split at h
+  · split at h
+    · cases h
+    split at h
+    · simp only [Except.ok.injEq, Prod.mk.injEq] at h; obtain ⟨_, rfl⟩ := h
+      rw [atts_append, ha0]; rfl
+    · split at h
+      · cases h
+      split at h
+      · simp only [Except.ok.injEq, Prod.mk.injEq] at h; obtain ⟨_, rfl⟩ := h
+        rw [atts_append, ha0]; rfl
+      · simp only [Except.ok.injEq, Prod.mk.injEq] at h; obtain ⟨_, rfl⟩ := h
+        exact ha0
+  · simp only [Except.ok.injEq, Prod.mk.injEq] at h; obtain ⟨_, rfl⟩ := h
+    exact ha0
+
+/-- `issueSoftVote`: never bottom; the cached starting value if the previous period's cache is (Bottom = false, value) -/
+theorem issueSoftVote_val {σ σ' : State} {d : Nat} {acts : List Action} (h : issueSoftVote P σ d = .ok (σ', acts)) :
+    ∀ v, atts acts = [⟨σ.pl.round, σ.pl.period, 1, v⟩] →
+      ∃ ns, CacheAt σ'.root σ.pl.round (predPeriod σ.pl.period) ns ∧ v ≠ 0 ∧
+        (0 < σ.pl.period → ns.bottom = false → ns.proposal ≠ 0 → v = ns.proposal) := by
+  unfold issueSoftVote at h
+  split at h
+  · cases h
+  rename_i σ₁ frozen hf
+  have p1 := (f_freezeProposal trivFrame trivial trivial hf).2
+  split at h
+  · cases h
+  rename_i σ₂ ns hn
+  obtain ⟨hc, p2⟩ := nextStatus_out hn
+  rw [p1] at hc
+  have hpl : σ₂.pl = σ.pl := p2.trans p1
+  simp only [] at h
+  intro v hv
+  split at h
+  · rename_i hcond
+    simp only [Except.ok.injEq, Prod.mk.injEq] at h; obtain ⟨rfl, rfl⟩ := h
+    have : v = ns.proposal := by
+      have := congrArg (fun l => l.map (·.v)) hv
+      simpa [atts, attOf] using this.symm
+    subst this
+    exact ⟨ns, hc, hcond.2.2, fun _ _ _ => rfl⟩
+  rename_i hcond
+  rw [hpl] at hcond
+  split at h
+  · simp only [Except.ok.injEq, Prod.mk.injEq] at h; obtain ⟨_, rfl⟩ := h
+    cases hv
+  rename_i hfz
+  have hvac : 0 < σ.pl.period → ns.bottom = false → ns.proposal ≠ 0 → v = ns.proposal :=
+    fun a b c => absurd ⟨a, b, c⟩ hcond
+  split at h
+  · split at h
+    · simp only [Except.ok.injEq, Prod.mk.injEq] at h; obtain ⟨rfl, rfl⟩ := h
+      have : v = frozen := by
+        have := congrArg (fun l => l.map (·.v)) hv
+        simpa [atts, attOf] using this.symm
+      subst this
+      exact ⟨ns, hc, hfz, hvac⟩
+    · simp only [Except.ok.injEq, Prod.mk.injEq] at h; obtain ⟨_, rfl⟩ := h
+      cases hv
+  · simp only [Except.ok.injEq, Prod.mk.injEq] at h; obtain ⟨rfl, rfl⟩ := h
+    have : v = frozen := by
+      have := congrArg (fun l => l.map (·.v)) hv
+      simpa [atts, attOf] using this.symm
+    subst this
+    exact ⟨ns, hc, hfz, hvac⟩
+
+/-- `issueNextVote`: the committable value, else what the previous period's cache says -/
+theorem issueNextVote_val {σ σ' : State} {d : Nat} {acts : List Action} (h : issueNextVote P σ d = .ok (σ', acts)) :
+    ∀ v, atts acts = [⟨σ.pl.round, σ.pl.period, σ.pl.step, v⟩] →
+      commVal σ'.root σ.pl.round σ.pl.period = some v ∨
+      ∃ ns, CacheAt σ'.root σ.pl.round (predPeriod σ.pl.period) ns ∧ v = if ns.bottom then 0 else ns.proposal := by
+  unfold issueNextVote at h
+  split at h
+  · cases h
+  rename_i σ₁ acts₁ hp
+  obtain ⟨a1, p1⟩ := partitionPolicy_noatt hp
+  split at h
+  · cases h
+  rename_i σ₂ ans hs2
+  have p2 := (f_staged trivFrame trivial trivial hs2).2
+  have hcv := commVal_staged hs2
+  rw [p1] at hcv
+  simp only [] at h
+  intro v hv
+  split at h
+  · rename_i hpay
+    simp only [Except.ok.injEq, Prod.mk.injEq] at h; obtain ⟨rfl, rfl⟩ := h
+    rw [hpay, if_pos rfl] at hcv
+    have : v = ans.proposal := by
+      rw [atts_append, a1] at hv
+      have := congrArg (fun l => l.map (·.v)) hv
+      simpa [atts, attOf] using this.symm
+    subst this
+    exact Or.inl hcv
+  · split at h
+    · cases h
+    rename_i σ₃ ns hn
+    obtain ⟨hc, p3⟩ := nextStatus_out hn
+    rw [p2, p1] at hc
+    simp only [Except.ok.injEq, Prod.mk.injEq] at h; obtain ⟨rfl, rfl⟩ := h
+    have : v = if ns.bottom = true then 0 else ns.proposal := by
+      rw [atts_append, a1] at hv
+      have := congrArg (fun l => l.map (·.v)) hv
+      simpa [atts, attOf] using this.symm
+    exact Or.inr ⟨ns, hc, this⟩
+
+/-- `issueFastVote`, down vote: the committable value is bottom, or the previous period's cache has Bottom or no value -/
+theorem issueFastVote_val {σ σ' : State} {acts : List Action} (h : issueFastVote P σ = .ok (σ', acts)) :
+    ∀ v, atts acts = [⟨σ.pl.round, σ.pl.period, 255, v⟩] →
+      commVal σ'.root σ.pl.round σ.pl.period = some 0 ∨
+      ∃ ns, CacheAt σ'.root σ.pl.round (predPeriod σ.pl.period) ns ∧ (ns.bottom = true ∨ ns.proposal = 0) := by
+  unfold issueFastVote at h
+  split at h
+  · cases h
+  rename_i σ₁ acts₁ hp
+  obtain ⟨a1, p1⟩ := partitionPolicy_noatt hp
+  split at h
+  · cases h
+  rename_i σ₂ e1 hd1
+  have p2 := (f_dumpVotes trivFrame trivial trivial hd1).2
+  split at h
+  · cases h
+  rename_i σ₃ e2 hd2
+  have p3 := (f_dumpVotes trivFrame trivial trivial hd2).2
+  split at h
+  · cases h
+  rename_i σ₄ e3 hd3
+  have p4 := (f_dumpVotes trivFrame trivial trivial hd3).2
+  simp only [] at h
+  split at h
+  · cases h
+  rename_i σ₅ ans hs5
+  have p5 := (f_staged trivFrame trivial trivial hs5).2
+  have hpl4 : σ₄.pl = σ.pl := p4.trans (p3.trans (p2.trans p1))
+  have hpl5 : σ₅.pl = σ.pl := p5.trans hpl4
+  have hcv := commVal_staged hs5
+  rw [hpl4] at hcv
+  have hb : atts (acts₁ ++ [Action.broadcastVotes (e1 ++ (e2 ++ e3))]) = [] := by rw [atts_append, a1]; rfl
+  intro v hv
+  have hstep : ∀ (τ : State) (a w : Nat), τ.pl = σ.pl →
+      fastFinish τ (acts₁ ++ [Action.broadcastVotes (e1 ++ (e2 ++ e3))]) a w = (σ', acts) → a = 255 ∧ σ'.root = τ.root := by
+    intro τ a w hτ hfe
+    obtain ⟨e0, _, _, _, _, e5⟩ := fastFinish_pl τ (acts₁ ++ [Action.broadcastVotes (e1 ++ (e2 ++ e3))]) a w
+    rw [hfe] at e0 e5
+    rw [hb, hτ] at e5
+    simp only [] at e0 e5
+    rw [hv] at e5
+    have := congrArg (fun l => l.map (·.s)) e5
+    simp at this
+    exact ⟨this.symm, e0⟩
+  split at h
+  · rename_i hpay
+    rw [hpay, if_pos rfl] at hcv
+    simp only [Except.ok.injEq] at h
+    split at h
+    · rename_i hz
+      obtain ⟨_, hr⟩ := hstep σ₅ sDown 0 hpl5 h
+      rw [hr]; exact Or.inl (by rw [hcv, hz])
+    · obtain ⟨habs, _⟩ := hstep σ₅ sLate ans.proposal hpl5 h
+      exact absurd habs (by decide)
+  · split at h
+    · cases h
+    rename_i σ₆ ns hn
+    obtain ⟨hc, p6⟩ := nextStatus_out hn
+    rw [hpl5] at hc
+    have hpl6 : σ₆.pl = σ.pl := p6.trans hpl5
+    split at h
+    · rename_i hbot
+      simp only [Except.ok.injEq] at h
+      obtain ⟨_, hr⟩ := hstep σ₆ sDown 0 hpl6 h
+      rw [hr]; exact Or.inr ⟨ns, hc, Or.inl hbot⟩
+    · split at h
+      · rename_i hz
+        simp only [Except.ok.injEq] at h
+        obtain ⟨_, hr⟩ := hstep σ₆ sDown 0 hpl6 h
+        rw [hr]; exact Or.inr ⟨ns, hc, Or.inr hz⟩
+      · simp only [Except.ok.injEq] at h
+        obtain ⟨habs, _⟩ := hstep σ₆ sRedo ns.proposal hpl6 h
+        exact absurd habs (by decide)
 
 /-! ### period and round changes, threshold events -/
 
@@ -754,6 +978,16 @@ def CommFact (σ' : State) (b : Attest) : Prop :=
   (b.s = 2 → commVal σ'.root b.r b.p = some b.v) ∧
   (3 ≤ b.s → commVal σ'.root b.r b.p = some b.v ∨ commVal σ'.root b.r b.p = none)
 
+/-- what was read from the tree for the value of a soft, next or down vote (abstract rules `RSoftStart`, `RNextVal`; the values
+of cert / late / redo votes are in `AttKind`) -/
+def ValFact (σ' : State) (b : Attest) : Prop :=
+  (b.s = 1 → ∃ ns, CacheAt σ'.root b.r (predPeriod b.p) ns ∧ b.v ≠ 0 ∧
+    (0 < b.p → ns.bottom = false → ns.proposal ≠ 0 → b.v = ns.proposal)) ∧
+  (3 ≤ b.s → b.s < 253 → commVal σ'.root b.r b.p = some b.v ∨
+    ∃ ns, CacheAt σ'.root b.r (predPeriod b.p) ns ∧ b.v = if ns.bottom then 0 else ns.proposal) ∧
+  (b.s = 255 → commVal σ'.root b.r b.p = some 0 ∨
+    ∃ ns, CacheAt σ'.root b.r (predPeriod b.p) ns ∧ (ns.bottom = true ∨ ns.proposal = 0))
+
 /-- one `handle`: the Step discipline and the attest it may emit -/
 structure HStep (pl : PlayerF) (σ' : State) (bs : List Attest) : Prop where
   lex : LexLe pl σ'.pl
@@ -763,6 +997,7 @@ structure HStep (pl : PlayerF) (σ' : State) (bs : List Attest) : Prop where
     ((pl.napping = true ∧ σ'.pl.step = pl.step) ∨ (σ'.pl.step = pl.step + 1 ∧ 3 ≤ pl.step))
   att : bs = [] ∨ ∃ b, bs = [b] ∧ b.r = σ'.pl.round ∧ b.p = σ'.pl.period ∧ AttKind pl σ' b
   comm : pl.period + 1 < 18446744073709551616 → ∀ b ∈ bs, CommFact σ' b
+  val : σ'.pl.step < 253 → ∀ b ∈ bs, ValFact σ' b
 
 theorem hstep_of_move {pl : PlayerF} {σ' : State} {bs : List Attest} (hm : Move pl σ'.pl) (hc : CertOnly σ' bs) :
     HStep pl σ' bs := by
@@ -778,10 +1013,19 @@ theorem hstep_of_move {pl : PlayerF} {σ' : State} {bs : List Attest} (hm : Move
       simp only [List.mem_singleton] at hbm
       subst hbm
       exact ⟨fun _ => hcv, fun h3 => absurd (show 3 ≤ 2 from h3) (by decide)⟩
+  have hval : ∀ b ∈ bs, ValFact σ' b := by
+    intro b hbm
+    rcases hc with hc | ⟨v, hb, _, _, _⟩
+    · rw [hc] at hbm; cases hbm
+    · rw [hb] at hbm
+      simp only [List.mem_singleton] at hbm
+      subst hbm
+      exact ⟨fun h => absurd (show 2 = 1 from h) (by decide), fun h _ => absurd (show 3 ≤ 2 from h) (by decide),
+        fun h => absurd (show 2 = 255 from h) (by decide)⟩
   rcases hm with ⟨e1, e2, e3, e4⟩ | ⟨hlt, hs1, hn⟩
   · exact ⟨Or.inr ⟨e1, Nat.le_of_eq e2⟩, fun hne => absurd ⟨e1, e2⟩ hne, fun _ => Nat.le_of_eq e3,
-      fun hnap => ⟨⟨e1, e2⟩, Or.inl ⟨by rw [e4]; exact hnap, e3.symm⟩⟩, hatt, fun _ => hcomm⟩
-  · refine ⟨?_, fun _ => ⟨hs1, hn⟩, ?_, ?_, hatt, fun _ => hcomm⟩
+      fun hnap => ⟨⟨e1, e2⟩, Or.inl ⟨by rw [e4]; exact hnap, e3.symm⟩⟩, hatt, fun _ => hcomm, fun _ => hval⟩
+  · refine ⟨?_, fun _ => ⟨hs1, hn⟩, ?_, ?_, hatt, fun _ => hcomm, fun _ => hval⟩
     · rcases hlt with hlt | ⟨hr, hp⟩
       · exact Or.inl hlt
       · exact Or.inr ⟨hr, Nat.le_of_lt hp⟩
@@ -876,7 +1120,7 @@ theorem handle_a (hs : GSpec P good G) (hset : ∀ r p vw, G r p vw → vw.stagi
       have e2' : σ.pl.period = σ₁.pl.period := e2
       have e4' : σ.pl.napping = σ₁.pl.napping := e4
       have hs1' : σ.pl.step = 1 := hs1
-      refine ⟨g1, ⟨Or.inr ⟨e1', Nat.le_of_eq e2'⟩, fun hne => absurd ⟨e1', e2'⟩ hne, fun _ => by show σ.pl.step ≤ 2; omega, ?_, ?_, ?_⟩⟩
+      refine ⟨g1, ⟨Or.inr ⟨e1', Nat.le_of_eq e2'⟩, fun hne => absurd ⟨e1', e2'⟩ hne, fun _ => by show σ.pl.step ≤ 2; omega, ?_, ?_, ?_, ?_⟩⟩
       · intro hn
         have hn' : σ₁.pl.napping = true := hn
         have := hnap (by rw [e4']; exact hn')
@@ -891,6 +1135,15 @@ theorem handle_a (hs : GSpec P good G) (hset : ∀ r p vw, G r p vw → vw.stagi
           simp only [List.mem_singleton] at hb
           subst hb
           exact ⟨fun h2 => absurd (show 1 = 2 from h2) (by decide), fun h3 => absurd (show 3 ≤ 1 from h3) (by decide)⟩
+      · intro _ b hb
+        rcases a1 with a1 | ⟨v, a1⟩
+        · rw [a1] at hb; cases hb
+        · have hvf := issueSoftVote_val hsv v a1
+          rw [a1] at hb
+          simp only [List.mem_singleton] at hb
+          subst hb
+          exact ⟨fun _ => hvf, fun h3 _ => absurd (show 3 ≤ 1 from h3) (by decide),
+            fun h => absurd (show 1 = 255 from h) (by decide)⟩
     rename_i hs1
     split at h
     · rename_i hs2
@@ -902,7 +1155,7 @@ theorem handle_a (hs : GSpec P good G) (hset : ∀ r p vw, G r p vw → vw.stagi
       have a1' : atts acts = [⟨σ.pl.round, σ.pl.period, 3, v⟩] := a1
       have c1' : σ.pl.period + 1 < 18446744073709551616 →
           commVal σ'.root σ.pl.round σ.pl.period = some v ∨ commVal σ'.root σ.pl.round σ.pl.period = none := c1
-      refine ⟨g1, ⟨Or.inr ⟨e1'.symm, Nat.le_of_eq e2'.symm⟩, fun hne => absurd ⟨e1'.symm, e2'.symm⟩ hne, fun _ => by omega, ?_, ?_, ?_⟩⟩
+      refine ⟨g1, ⟨Or.inr ⟨e1'.symm, Nat.le_of_eq e2'.symm⟩, fun hne => absurd ⟨e1'.symm, e2'.symm⟩ hne, fun _ => by omega, ?_, ?_, ?_, ?_⟩⟩
       · intro hn; rw [e4] at hn; cases hn
       · exact Or.inr ⟨_, a1', e1'.symm, e2'.symm, Or.inr (Or.inr (Or.inl ⟨by show (3 : Nat) ≤ 3; decide, e3'.symm,
           ⟨e1'.symm, e2'.symm⟩, e4, Or.inl ⟨hs2', rfl⟩⟩))⟩
@@ -911,6 +1164,13 @@ theorem handle_a (hs : GSpec P good G) (hset : ∀ r p vw, G r p vw → vw.stagi
         simp only [List.mem_singleton] at hb
         subst hb
         exact ⟨fun h2 => absurd (show 3 = 2 from h2) (by decide), fun _ => c1' hfit⟩
+      · intro _ b hb
+        have hvf := issueNextVote_val h v a1
+        rw [a1'] at hb
+        simp only [List.mem_singleton] at hb
+        subst hb
+        exact ⟨fun h => absurd (show 3 = 1 from h) (by decide), fun _ _ => hvf,
+          fun h => absurd (show 3 = 255 from h) (by decide)⟩
     rename_i hs2
     split at h
     · rename_i hn0
@@ -923,7 +1183,7 @@ theorem handle_a (hs : GSpec P good G) (hset : ∀ r p vw, G r p vw → vw.stagi
       have a1' : atts acts = [⟨σ.pl.round, σ.pl.period, σ.pl.step, v⟩] := a1
       have c1' : σ.pl.period + 1 < 18446744073709551616 →
           commVal σ'.root σ.pl.round σ.pl.period = some v ∨ commVal σ'.root σ.pl.round σ.pl.period = none := c1
-      refine ⟨g1, ⟨Or.inr ⟨e1'.symm, Nat.le_of_eq e2'.symm⟩, fun hne => absurd ⟨e1'.symm, e2'.symm⟩ hne, fun _ => by omega, ?_, ?_, ?_⟩⟩
+      refine ⟨g1, ⟨Or.inr ⟨e1'.symm, Nat.le_of_eq e2'.symm⟩, fun hne => absurd ⟨e1'.symm, e2'.symm⟩ hne, fun _ => by omega, ?_, ?_, ?_, ?_⟩⟩
       · intro hn; rw [e4] at hn; cases hn
       · exact Or.inr ⟨_, a1', e1'.symm, e2'.symm, Or.inr (Or.inr (Or.inl ⟨by show 3 ≤ σ.pl.step; omega, e3'.symm,
           ⟨e1'.symm, e2'.symm⟩, e4, Or.inr ⟨hn0', rfl⟩⟩))⟩
@@ -932,10 +1192,18 @@ theorem handle_a (hs : GSpec P good G) (hset : ∀ r p vw, G r p vw → vw.stagi
         simp only [List.mem_singleton] at hb
         subst hb
         exact ⟨fun h2 => by have h2' : σ.pl.step = 2 := h2; omega, fun _ => c1' hfit⟩
+      · intro hlt b hb
+        have hvf := issueNextVote_val h v a1
+        rw [a1'] at hb
+        simp only [List.mem_singleton] at hb
+        subst hb
+        rw [e3'] at hlt
+        exact ⟨fun h => by have h' : σ.pl.step = 1 := h; omega, fun _ _ => hvf,
+          fun h => by have h' : σ.pl.step = 255 := h; omega⟩
     · simp only [Except.ok.injEq, Prod.mk.injEq] at h; obtain ⟨rfl, rfl⟩ := h
       have hs1' : σ.pl.step ≠ 1 := hs1
       have hs2' : σ.pl.step ≠ 2 := hs2
-      refine ⟨hG₀, ⟨Or.inr ⟨rfl, Nat.le_refl _⟩, fun hne => absurd ⟨rfl, rfl⟩ hne, fun _ => by show σ.pl.step ≤ σ.pl.step + 1; omega, ?_, Or.inl rfl, fun _ b hb => by cases hb⟩⟩
+      refine ⟨hG₀, ⟨Or.inr ⟨rfl, Nat.le_refl _⟩, fun hne => absurd ⟨rfl, rfl⟩ hne, fun _ => by show σ.pl.step ≤ σ.pl.step + 1; omega, ?_, Or.inl rfl, fun _ b hb => (by cases hb), fun _ b hb => (by cases hb)⟩⟩
       intro _
       exact ⟨⟨rfl, rfl⟩, Or.inr ⟨rfl, by omega⟩⟩
   | fastTimeout entropy =>
@@ -949,12 +1217,13 @@ theorem handle_a (hs : GSpec P good G) (hset : ∀ r p vw, G r p vw → vw.stagi
       have hcm' : σ.pl.period + 1 < 18446744073709551616 →
           commVal σ'.root σ.pl.round σ.pl.period = some v ∨ commVal σ'.root σ.pl.round σ.pl.period = none := hcm
       have hb' : atts acts = [⟨σ.pl.round, σ.pl.period, a, v⟩] := hb
+      have hfv := issueFastVote_val h
       have e1' : σ'.pl.round = σ.pl.round := e1
       have e2' : σ'.pl.period = σ.pl.period := e2
       have e3' : σ'.pl.napping = σ.pl.napping := e3
       have e4' : σ'.pl.step = fastStep σ.pl.step a := e4
       refine ⟨g1, ⟨Or.inr ⟨e1'.symm, Nat.le_of_eq e2'.symm⟩, fun hne => absurd ⟨e1'.symm, e2'.symm⟩ hne,
-        fun _ => by rw [e4']; exact fastStep_ge _ _, ?_, ?_, ?_⟩⟩
+        fun _ => by rw [e4']; exact fastStep_ge _ _, ?_, ?_, ?_, ?_⟩⟩
       · intro hn
         have hn' : σ.pl.napping = true := by rw [← e3']; exact hn
         exact ⟨⟨e1'.symm, e2'.symm⟩, Or.inl ⟨hn', by rw [e4']; exact fastStep_high a (hnap hn')⟩⟩
@@ -966,6 +1235,18 @@ theorem handle_a (hs : GSpec P good G) (hset : ∀ r p vw, G r p vw → vw.stagi
         refine ⟨fun h2 => ?_, fun _ => hcm' hfit⟩
         have h2' : a = 2 := h2
         rcases hk with ⟨k, _⟩ | ⟨k, _⟩ | ⟨k, _⟩ <;> omega
+      · intro _ b hbm
+        rw [hb'] at hbm
+        simp only [List.mem_singleton] at hbm
+        subst hbm
+        refine ⟨fun h1 => ?_, fun _ h253 => ?_, fun h255 => ?_⟩
+        · have h1' : a = 1 := h1
+          rcases hk with ⟨k, _⟩ | ⟨k, _⟩ | ⟨k, _⟩ <;> omega
+        · have h' : a < 253 := h253
+          rcases hk with ⟨k, _⟩ | ⟨k, _⟩ | ⟨k, _⟩ <;> omega
+        · have h' : a = 255 := h255
+          subst h'
+          exact hfv v hb
   | roundInterruption r =>
     obtain ⟨_, g1, e1, c1⟩ := enterRoundK_a hs (handleThresh_a hs _) (σ := ⟨_, _⟩) hQ₀ hG₀ heva h
     exact ⟨g1, hstep_of_move (Or.inr e1) c1⟩
